@@ -819,6 +819,10 @@ def run(ctx):
     # `length field <= size - K` was established for a size the stored payload does not have
     from rules.c04 import rule_typed_ctor_keeps_size
     rule_typed_ctor_keeps_size(fb, res, "C03-R2b")
+    # the views of the interface status payload start at the positions of their fields (C13-R7, shared): a position computed through a lossy
+    # conversion or from the wrong word lies outside the bytes the bounded reader vouched for
+    from rules import readers
+    readers.interface_reader_positions(fb, res, "C03-R2b", prefix="position:")
     res.floor("C03-R1", 14)
     res.floor("C03-R2a", 7)
     res.floor("C03-R2b", 8)
